@@ -29,23 +29,29 @@ CmdOK(c, ev) ==
     \/ FALSE
 \* ---- at the end of the run ----
 \* a non-chunked key is written by exactly one worker connection, a successful RESTORE happens at most once per key
-WritersOf(k) == {cmds[i].conn : i \in {j \in 1..Len(cmds) : cmds[j].keyb = k /\ cmds[j].cmd \in DataCmds /\ cmds[j].cmd # "EXISTS"}}
-GoodRestores(k) == Cardinality({j \in 1..Len(cmds) : cmds[j].keyb = k /\ cmds[j].cmd = "RESTORE" /\ ~cmds[j].err})
+WritersOf(d, k) == {cmds[i].conn : i \in {j \in 1..Len(cmds) : cmds[j].keyb = k /\ cmds[j].db = d /\ cmds[j].cmd \in DataCmds /\ cmds[j].cmd # "EXISTS"}}
+GoodRestores(d, k) == Cardinality({j \in 1..Len(cmds) : cmds[j].keyb = k /\ cmds[j].db = d /\ cmds[j].cmd = "RESTORE" /\ ~cmds[j].err})
+\* a destination (db, key) that some reachable entry maps to
+Wanted(c, d, k) == \E e \in SetOf(c.entries) : e.dest_db = d /\ e.dest_keyb = k /\ Reach(c, e)
 \* a restore must fail (and the run report it) when a reachable key already exists on the target under policy "none"
 ExpectError(c) == c.cfg.key_exists = "none" /\ \E e \in SetOf(c.entries), p \in SetOf(c.pre) :
                      Reach(c, e) /\ p.db = e.dest_db /\ p.keyb = e.dest_keyb
 DoneOK(c, ev) ==
   /\ ev.panic = ""
   /\ (ExpectError(c) <=> (ev.err \/ ev.abort))                         \* a failed restore is reported (error or abort); otherwise the run neither fails nor aborts                                       \* a failed restore is reported, success is success
-  /\ (~(ev.err \/ ev.abort) => ev.scripts_loaded = (IF ScriptsReach(Cfg(c.cfg)) THEN c.scripts ELSE 0))
+  \* scripts: exactly when filter.lua is off (in the incremental path a script command is, like any command, also
+  \* subject to the db filter of the database selected when it is issued)
+  /\ (~(ev.err \/ ev.abort) => ev.scripts_loaded =
+        (IF ScriptsReach(Cfg(c.cfg)) /\ (c.cfg.mode = "incr" => ~FilterDB(Cfg(c.cfg), ev.script_db)) THEN c.scripts ELSE 0))
   /\ \A e \in SetOf(c.entries) :
-        /\ GoodRestores(e.dest_keyb) <= 1
-        /\ (~e.chunk => Cardinality(WritersOf(e.dest_keyb)) <= 1)
-        /\ (~Reach(c, e) => WritersOf(e.dest_keyb) = {})
+        /\ GoodRestores(e.dest_db, e.dest_keyb) <= 1
+        /\ (~e.chunk => Cardinality(WritersOf(e.dest_db, e.dest_keyb)) <= 1)
+        /\ (~Wanted(c, e.dest_db, e.dest_keyb) => WritersOf(e.dest_db, e.dest_keyb) = {})
 FinalOK(c, ev) ==
   LET e == Entry(c, ev.id) IN
   IF ExpectError(c) THEN TRUE                                          \* nothing is promised about the rest of a failed run
-  ELSE IF ~Reach(c, e) THEN (ev.had_pre => ev.untouched) /\ (~ev.had_pre => ~ev.present)
+  ELSE IF ~Wanted(c, e.dest_db, e.dest_keyb) THEN (ev.had_pre => ev.untouched) /\ (~ev.had_pre => ~ev.present)
+  ELSE IF ~Reach(c, e) THEN TRUE        \* another entry legitimately owns this destination (several source dbs into one target.db)
   ELSE /\ ev.elsewhere = 0
        /\ IF ev.expired_at_source THEN (ev.present => ev.match /\ ev.ttl = "ok")
           ELSE ev.present /\ ev.match /\ ev.ttl = (IF ev.src_expire = 0 THEN "none" ELSE "ok")
